@@ -52,10 +52,15 @@ func (w *world) smallLayout(prefix string, maxTiers int, withProfiles bool, heav
 		for j := 0; j <= w.rnd.Intn(2); j++ {
 			w.np++
 			p := &polSpec{Name: fmt.Sprintf("%s-p%d", prefix, w.np), Staged: chance(w.rnd, 15)}
-			if heavyDeny && chance(w.rnd, 60) {
+			if heavyDeny && chance(w.rnd, 55) {
 				// a policy that blocks everything: what failsafes must survive
 				p.In = []*proto.Rule{{Action: "deny"}}
 				p.Out = []*proto.Rule{{Action: "deny"}}
+			} else if heavyDeny && chance(w.rnd, 50) {
+				// a host policy that allows everything (sets the accept mark early, e.g. pre-DNAT): workload
+				// policy must still be enforced afterwards
+				p.In = []*proto.Rule{{Action: "allow"}}
+				p.Out = []*proto.Rule{{Action: "allow"}}
 			} else {
 				p.In = randRules(w.rnd, w.ipv, w.sg, policyActions, 2)
 				p.Out = randRules(w.rnd, w.ipv, w.sg, policyActions, 2)
